@@ -5,7 +5,7 @@
 #[verifier::external_type_specification] pub struct ExNode(Node);
 #[verifier::external_type_specification] pub struct ExNodeOp(NodeOp);
 #[verifier::external_type_specification] pub struct ExExpect(Expect);
-#[verifier::external_type_specification] #[verifier::external_body] pub struct ExStringName(StringName);
+#[verifier::external_type_specification] pub struct ExStringName(StringName);
 #[verifier::external_type_specification] #[verifier::external_body] pub struct ExTrueName(TrueName);
 #[verifier::external_type_specification] pub struct ExName(Name);
 #[verifier::external_type_specification] pub struct ExExpected(Expected);
@@ -159,8 +159,8 @@ impl Environment {
 //@@< self.vars.get(&var_name).cloned()
 //@@> verif_cloned(self.vars.get(&var_name))
     ensures
-        r is Some <==> visible(*self, *var_mapping, var@),                       //# lookup_succeeds_iff_visible [C09]
-        r matches Some(s) ==> s == hm(self.vars)[lookup_key(*self, *var_mapping, var@)], //# lookup_returns_the_current_definition [C09]
+        r is Some <==> visible(*self, *var_mapping, var@),                       //# lookup_succeeds_iff_visible [C09,C07]
+        r matches Some(s) ==> s == hm(self.vars)[lookup_key(*self, *var_mapping, var@)], //# lookup_returns_the_current_definition [C09,C07]
 //@@ END
 //@@ FN src/check/constrain/generate/env.rs | impl Environment | insert_var
 //@@ REPLACE
@@ -170,15 +170,15 @@ impl Environment {
 //@@< let offset = if let Some($off) = self.var_mapping.get(var) {
 //@@> proof { axiom_offsets_small(self.var_mapping); }
     ensures
-        r == (Environment { vars: r.vars, var_mapping: r.var_mapping, ..*self }), //# frame_only_vars_and_mapping [C09,C08]
-        hm(r.var_mapping) == hm(self.var_mapping).insert(var@, next_offset(*self, *var_mapping, var@) as usize), //# new_definition_gets_the_next_offset [C09]
+        r == (Environment { vars: r.vars, var_mapping: r.var_mapping, ..*self }), //# frame_only_vars_and_mapping [C09,C08,C07]
+        hm(r.var_mapping) == hm(self.var_mapping).insert(var@, next_offset(*self, *var_mapping, var@) as usize), //# new_definition_gets_the_next_offset [C09,C07]
         exists|s: HashSet<(bool, Expected)>| hs(s) == set![(mutable, *expect)]
-            && hm(r.vars) == hm(self.vars).insert(fmt_var(var@, next_offset(*self, *var_mapping, var@) as usize), s), //# new_definition_is_recorded_and_nothing_is_forgotten [C09]
+            && hm(r.vars) == hm(self.vars).insert(fmt_var(var@, next_offset(*self, *var_mapping, var@) as usize), s), //# new_definition_is_recorded_and_nothing_is_forgotten [C09,C07]
 //@@ END
 //@@ FN src/check/constrain/generate/env.rs | impl Environment | remove_var
     ensures
-        r == (Environment { vars: r.vars, ..*self }),                            //# frame_only_vars [C09,C08]
-        hm(r.vars) == hm(self.vars).remove(var@),                                //# only_the_named_entry_is_removed [C09]
+        r == (Environment { vars: r.vars, ..*self }),                            //# frame_only_vars [C09,C08,C07]
+        hm(r.vars) == hm(self.vars).remove(var@),                                //# only_the_named_entry_is_removed [C09,C07]
 //@@ END
 //@@ FN src/check/constrain/generate/env.rs | impl Environment | raises_caught
     ensures
